@@ -243,6 +243,29 @@ func (g *Gen) genC02() {
 		f0 := flags &^ 8
 		g.add(resumeCase("C02", hd, buf, start, cuts, f0, flags, kind))
 	}
+	// the end-of-input option on the LAST call: lists whose text stops right after a line end, inside white space,
+	// inside a quoted string, after a separator / '=' (every suspension site of the parameter parser at the end of input)
+	m := g.budget(800, 30000)
+	for i := 0; i < m; i++ {
+		fl := []int{0, 1, 2, 4, 16, 64, 128, 64 | 2, 128 | 4, 1 | 16, 32, 4 | 16}[r.N(12)]
+		sep := ";"
+		if fl&(32|128) != 0 {
+			sep = "&"
+		}
+		hd := "tokparam"
+		if fl&64 != 0 {
+			hd = fmt.Sprintf("uriparams %d", r.N(5))
+		} else if fl&128 != 0 {
+			hd = fmt.Sprintf("urihdrs %d", r.N(5))
+		}
+		eol := r.EOL()
+		text := g.paramListText(sep, r.P(50)) + r.Pick(eol, eol, eol+" ", eol+"\t", "=\"abc", "=\"a\\", "=\"a\\\"", " ", "\t ", "", sep, "=", " = ", eol+eol, sep+eol, "="+eol, " "+eol)
+		if len(text) == 0 {
+			continue
+		}
+		cuts := r.Cuts(text, len(text))
+		g.add(resumeCase("C02", hd, text, 0, cuts, fl, fl|8, "list-end-of-input"))
+	}
 }
 
 // ---------------------------------------------------------------- C03
@@ -412,7 +435,25 @@ func (g *Gen) genC04() {
 		alpha := []string{"", "0123456789.x", "0123456789abcdef:[]x", "sipSIPtel:@;?&=[].a1", "abAB-_@.:*/+=|19"}[r.N(5)]
 		s := r.RandBytes(alpha, 0, 24)
 		var line, kind string
-		switch r.N(16) {
+		if r.P(25) {
+			s = ip6Shape(r)
+		} else if r.P(10) { // Call-ID shapes: hex / decimal blocks right before and after an address, very long ids
+			ip := r.Pick("10.0.0.1", "192.168.1.255", "::1", "fe80::1:2", "1:2:3:4:5:6:7:8", "[2001:db8::1]")
+			s = r.RandBytes("0123456789abcdefABCDEF", 0, 9) + r.Pick("", "-", "@", ".", ":") + ip + r.Pick("", "-", "@", ".") + r.RandBytes("0123456789abcdef-@", 0, 12)
+			if r.P(15) {
+				s += strings.Repeat(r.Pick("a", "0f", "x-", "9."), 100+r.N(80))
+			}
+		}
+		switch r.N(18) {
+		case 16: // a Via value cut anywhere (the parameter parser then asks for more bytes) or with a bad byte
+			v := "SIP/2.0/UDP " + r.Host() + r.Pick("", ";rport", ";ttl=3", ";x=\"q") + ";" + r.Pick("branch", "BRANCH", "bRanch") + "=" + r.Pick("z9hG4bK", "") + r.Alnum(1, 9) + r.Pick("", ";y", "\r\n", "\r\nX", " ", ", SIP/2.0/TCP h2;branch=z9hG4bKzz")
+			line, kind = "viabrsig "+hx(v[:r.N(len(v)+1)]), "viabrsig-cut"
+		case 17: // comparison helpers: the SECOND list is the malformed one
+			if r.P(50) {
+				line, kind = fmt.Sprintf("uriparamseq %s 0 %s 0", hx(r.ParamList(";", 4)), hx(s)), "uriparamseq-2nd-bad"
+			} else {
+				line, kind = fmt.Sprintf("urihdrseq %s 0 %s 0", hx(r.ParamList("&", 4)), hx(s)), "urihdrseq-2nd-bad"
+			}
 		case 14, 15: // result buffers of every length (also odd ones, and longer than the address)
 			if r.P(50) {
 				s = r.Pick("1.2.3.4", "255.255.255.255", "::1", "[::]", "1:2:3:4:5:6:7:8", "id-a::b@host", "x9.8.7.6y", "fe80::1:2", "::ffff:1.2.3.4", s)
@@ -463,6 +504,39 @@ func (g *Gen) genC04() {
 		}
 		g.add(safetyCase("C04", line, nil, nil, kind))
 	}
+}
+
+// ip6Shape: texts around the IPv6 grammar — 0..10 groups of hex digits, "::" anywhere (also twice), brackets present /
+// missing / unbalanced, too many colons, an IPv4 tail, junk behind the address.
+func ip6Shape(r *Rng) string {
+	var sb strings.Builder
+	if r.P(30) {
+		sb.WriteString("[")
+	}
+	n := r.N(11)
+	dbl := -1
+	if r.P(60) {
+		dbl = r.N(n + 1)
+	}
+	for i := 0; i < n; i++ {
+		if i == dbl {
+			sb.WriteString(r.Pick("::", "::", ":::"))
+		} else if i > 0 {
+			sb.WriteString(":")
+		}
+		sb.WriteString(r.RandBytes("0123456789abcdefABCDEF", 0, 4) + r.Pick("", "", "", "", "0", "g"))
+	}
+	if dbl == n {
+		sb.WriteString("::")
+	}
+	if r.P(10) {
+		sb.WriteString(r.Pick(":1.2.3.4", "1.2.3.4", ".1"))
+	}
+	if r.P(35) {
+		sb.WriteString("]")
+	}
+	sb.WriteString(r.Pick("", "", "", "x", ":", ":5060", "]", " ", "%eth0", ";p", "@h"))
+	return sb.String()
 }
 
 // ---------------------------------------------------------------- C11
